@@ -18,6 +18,8 @@ func main() {
 	switch os.Args[1] {
 	case "extract":
 		extractAll(os.Args[2])
+	case "genhash":
+		genHashMain(os.Args[2])
 	case "run":
 		p := os.Args[2]
 		seed, _ := strconv.ParseUint(os.Args[3], 10, 64)
